@@ -75,7 +75,12 @@ FbShapes == <<
   << <<4>>,       <<D(4, "linear", TRUE)>>, <<D(4, "relu", FALSE), D(4, "linear", TRUE)>>, <<D(3, "relu", FALSE)>> >>,
   << <<4>>,       <<D(4, "linear", TRUE)>>, <<D(4, "relu", TRUE)>>,                         <<D(2, "linear", FALSE)>>, <<D(4, "linear", FALSE), D(4, "relu", TRUE)>> >>,
   << <<1, 4, 4>>, <<>>,                     <<C3(1, "linear")>>,                      <<D(2, "linear", TRUE)>>,  <<C3(1, "relu")>> >>,
-  << <<1, 3, 5>>, <<>>,                     <<C3(1, "relu"), T3x(1, "linear")>>,      <<D(2, "linear", FALSE)>> >>
+  << <<1, 3, 5>>, <<>>,                     <<C3(1, "relu"), T3x(1, "linear")>>,      <<D(2, "linear", FALSE)>> >>,
+  \* convolutions whose padding differs from their dilation (5 x 5 kernel, padding 2; 3 x 3 kernels with padding 2 /
+  \* dilation 1 then padding 1 / dilation 2: 4 x 4 -> 6 x 6 -> 4 x 4)
+  << <<1, 4, 4>>, <<>>, <<[kind |-> "conv", hp |-> HP(1, 5, 5, 1, 1, 2, 2, 1, 1, "relu", FALSE)]>>, <<D(2, "linear", FALSE)>> >>,
+  << <<1, 4, 4>>, <<>>, <<[kind |-> "conv", hp |-> HP(1, 3, 3, 1, 1, 2, 2, 1, 1, "linear", FALSE)],
+                         [kind |-> "conv", hp |-> HP(1, 3, 3, 1, 1, 1, 1, 2, 2, "relu", FALSE)]>>,        <<D(2, "linear", FALSE)>> >>
 >>
 FbNet(s, loops, inskips, outskips, acc) ==
   LET pre  == Build(s[1], s[2])
@@ -189,7 +194,8 @@ SkipGradIsDerivative ==
 LayerJson(L) ==
   IF L.kind = "fb"
     THEN [kind |-> "fb", loops |-> L.loops, inskips |-> L.inskips, outskips |-> L.outskips, acc |-> L.acc,
-          inner |-> [j \in 1..Len(L.inner) |-> [kind |-> L.inner[j].kind, cfg |-> L.inner[j].cfg, params |-> L.inner[j].params]]]
+          inner |-> [j \in 1..Len(L.inner) |-> [kind |-> L.inner[j].kind, cfg |-> L.inner[j].cfg, params |-> L.inner[j].params,
+                                                  in |-> L.inner[j].in, out |-> L.inner[j].out]]]
     ELSE [kind |-> L.kind, cfg |-> L.cfg, params |-> L.params]
 
 EvalSkip(seed) ==
